@@ -119,7 +119,7 @@ def rel(c, e, g):
 
 def run(ctx):
     g = qgen.Gen(ctx.rng)
-    n = 3000 if ctx.tier == 'quick' else 100000
+    n = 3000 if ctx.tier == 'quick' else 500000
     cases = [gen_case(ctx, g) for _ in range(n)]
     cases += [gen_endless(ctx, g) for _ in range(300 if ctx.tier == 'quick' else 5000)]
     cases += exhaustive_cases(ctx, 3000 if ctx.tier == 'quick' else None)
